@@ -24,6 +24,7 @@
 
 
 import functools
+import keyword
 import re
 from .prologVisitor import prologVisitor
 from .errors import CompilerError
@@ -185,6 +186,18 @@ class Clause:
     def __str__(self):
         return f'{self.head} :- {self.body}'
 
+
+# names that a Prolog variable cannot have in the generated Python code
+_RESERVED_VARIABLE_NAMES = set(keyword.kwlist) | { '__debug__', 'ATOM_NIL' }
+
+def python_variable_name(varname):
+    """Prolog variables keep their name in the generated code, except when Python
+    or the generated code itself reserves that name (True, None, ATOM_NIL, ...).
+    Those get the prefix V_, and so do names that already start with V_, which
+    keeps the mapping one-to-one."""
+    if varname in _RESERVED_VARIABLE_NAMES or varname.startswith('V_'):
+        return 'V_' + varname
+    return varname
 
 class YPPrologVisitor(prologVisitor):
     def __init__(self,context):
@@ -357,7 +370,7 @@ class YPPrologVisitor(prologVisitor):
             variable = AnonymousVariableTerm(self.anonymousVariableCounter)
             self.anonymousVariableCounter += 1
         else:
-            variable = VariableTerm(varname)
+            variable = VariableTerm(python_variable_name(varname))
         return variable
 
     def unquoteString(self,s):
